@@ -893,6 +893,9 @@ func judge(c *fw.Ctx, cf cfg, rec *recorder, desc string, total int64) {
 		if strings.Contains(e, "VisitMailboxes") || strings.Contains(e, "DoScan") {
 			key = "C09:visit-error"
 		}
+		if strings.Contains(e, "accounting drift") {
+			key = "C09:enforcer-accounting-drift"
+		}
 		c.Violation(key, desc+": "+e, nil)
 	}
 	if cf.maxkb > 0 && total > int64(cf.maxkb)*1024 {
@@ -1028,15 +1031,25 @@ func directedMem(c *fw.Ctx, kind int, r *fw.Rand) {
 	a := &client{id: 0, st: st, rec: rec}
 	b := &client{id: 1, st: st, rec: rec}
 	now := time.Now()
+	// An older live message that nothing ever removes: if the enforcer's account drifts upwards,
+	// it is the first one to be evicted although the store is not over its limit.
+	hdr := len("Subject: s\r\n\r\n")
+	keeper := ""
+	if kind != 2 {
+		keeper = a.Add("keeper", 1024-hdr, now)
+	}
 	// Preceding history.
-	for i := 0; i < r.Range(0, 3); i++ {
-		a.Add("box", r.Range(100, 900), now)
+	// (Sizes are bounded so that keeper + history + the paused delivery + what the schedule adds
+	// stay below the 4096-byte limit: the keeper may never be evicted legitimately.)
+	for i := 0; i < r.Range(0, 2); i++ {
+		a.Add("box", r.Range(100, 400), now)
 	}
 	target := "box"
 	g := newGate(func(site string, args []string) bool { return site == "mem.add.visible" && args[0] == target })
 	verifhook.Set(g.hook)
 	done := make(chan string, 1)
-	go func() { done <- a.Add(target, r.Range(200, 1200), now) }()
+	pausedSize := r.Range(200, 900)
+	go func() { done <- a.Add(target, pausedSize, now) }()
 	ok, dump := c.Within(30*time.Second, func() {
 		<-g.reached
 		verifhook.Set(func(site string, args ...string) { countHook(site) })
@@ -1069,15 +1082,30 @@ func directedMem(c *fw.Ctx, kind int, r *fw.Rand) {
 		// Afterwards the full capacity must still be usable: accounting must not have drifted.
 		b.Purge(target)
 		b.Purge("other")
+		// Four messages of exactly 1024 bytes fill the empty 4096-byte store to the brim: they all
+		// fit, unless the enforcer still counts even one byte of a message that is gone.
+		// Fill the store to the brim with messages of exactly 1024 bytes (four, or three next to
+		// the keeper): they all fit, unless the enforcer still counts even one byte of a message
+		// that is gone - then the oldest live message (the keeper) is evicted.
+		first := 0
+		if keeper != "" {
+			first = 1
+		}
 		var last string
-		for i := 0; i < 3; i++ {
-			last = b.Add("fresh", 1000, now)
+		for i := first; i < 4; i++ {
+			last = b.Add(fmt.Sprintf("fresh%d", i), 1024-hdr, now)
 		}
-		ids = b.List("fresh")
-		if len(ids) != 3 && cf.cap == 0 {
-			rec.fail("after %s: 3 x 1016 bytes delivered into an empty 4096-byte store, %d retained (accounting drift)", name, len(ids))
+		kept := 0
+		for i := first; i < 4; i++ {
+			kept += len(b.List(fmt.Sprintf("fresh%d", i)))
 		}
-		b.Get("fresh", last)
+		if keeper != "" {
+			kept += len(b.List("keeper"))
+		}
+		if kept != 4 {
+			rec.fail("after %s: the store holds exactly 4 x 1024 = 4096 bytes of deliveries nobody removed, but only %d of the 4 messages are retained (accounting drift)", name, kept)
+		}
+		b.Get("fresh3", last)
 	})
 	if !ok {
 		select {
@@ -1095,7 +1123,7 @@ func directedMem(c *fw.Ctx, kind int, r *fw.Rand) {
 	c.Count("directed_schedules", 1)
 	c.Count("directed:"+name, 1)
 	var total int64
-	for _, mb := range []string{"box", "other", "fresh"} {
+	for _, mb := range []string{"box", "other", "keeper", "fresh0", "fresh1", "fresh2", "fresh3"} {
 		ms, _ := st.GetMessages(mb)
 		for _, m := range ms {
 			total += m.Size()
